@@ -393,4 +393,24 @@ def validity_tolerance(repo: Repo) -> RuleRun:
 
 validity_tolerance.rule_id = "C07.VALIDITY-TOLERANCE"
 
-RULES = [kind_registry, dedup, direction, reversal, face_edge_slots, curve_direction, edge_slots, length_direction, arc_side, validity_tolerance]
+def own_edge_data(repo: Repo) -> RuleRun:
+    """'each curved edge is written with ITS data': every edge slot owns its edge-data record, so a transformation reaches it once. Same rule as C09.NO-SHARED-PARTS."""
+    from ..report import rebrand
+    from . import c09
+
+    return rebrand(c09.no_shared_parts(repo), PROP, "C07.OWN-EDGE-DATA")
+
+
+own_edge_data.rule_id = "C07.OWN-EDGE-DATA"
+
+def no_memo(repo: Repo) -> RuleRun:
+    """'written as the geometry stands at write time': nothing that depends on the vertices is memoised on an edge. Same rule as C16.NO-MEMO."""
+    from ..report import rebrand
+    from . import c16
+
+    return rebrand(c16.no_memo(repo), PROP, "C07.NO-MEMO")
+
+
+no_memo.rule_id = "C07.NO-MEMO"
+
+RULES = [kind_registry, dedup, direction, reversal, face_edge_slots, curve_direction, edge_slots, length_direction, arc_side, validity_tolerance, own_edge_data, no_memo]
